@@ -130,6 +130,8 @@ class C15(Engine):
 
         spec = outcome[1]
         sent = []   # (type_name, bytes, canon(decoded alone), jvalue)
+        parsed_fresh = world.parse(text)
+        parsed_fresh = parsed_fresh[1] if parsed_fresh[0] == 'ok' else None
 
         for type_name, jvalue in case['messages']:
             value = deser(jvalue)
@@ -152,6 +154,33 @@ class C15(Engine):
                 continue
 
             sent.append((type_name, encoded, canon(outcome[1]), jvalue))
+
+            # The same message as a sender with a NEWER version of an
+            # extensible type would produce it: an unknown element appended
+            # at the end of the outermost (or a last-nested) constructed
+            # node.  Kept if the decoder accepts it alone (it is then a
+            # valid encoding for this specification).
+            variant_rng = random.Random(mix(case.get('seed', 0), 'unknown',
+                                            len(sent)))
+
+            if variant_rng.random() < 0.7 and encoded[:1] in (
+                    b'\x30', b'\x31') and self.extensible_at_end(
+                        parsed_fresh, type_name):
+                unknown = variant_rng.choice([
+                    b'\x9f\x7d\x01\x2a', b'\xbf\x7e\x03\x02\x01\x05',
+                    b'\x9e\x00', b'\xdf\x87\x68\x02\xab\xcd'])
+                extended = wire.append_unknown_addition(encoded, 0, unknown)
+
+                if extended is not None:
+                    outcome, ticks = steps.call(
+                        lambda: spec.decode(type_name, extended),
+                        world.decode_budget(len(extended)))
+                    result.ticks += ticks
+
+                    if outcome[0] == 'ok':
+                        sent.append((type_name, extended, canon(outcome[1]),
+                                     jvalue))
+                        result.stats['messages-with-unknown-additions'] += 1
 
         if not sent:
             return result
@@ -365,6 +394,49 @@ class C15(Engine):
                 'delivered': delivered})
 
         return result
+
+    @staticmethod
+    def extensible_at_end(parsed, type_name):
+        """True if the (untagged) top-level type is a SEQUENCE or SET whose
+        extension insertion point is the end of its component list, so that
+        an unknown element appended to the contents is a valid encoding of
+        a later version of the type."""
+
+        if parsed is None:
+            return False
+
+        for module in parsed.values():
+            desc = module['types'].get(type_name)
+
+            if desc is None:
+                continue
+
+            for _ in range(20):
+                if 'tag' in desc or 'actual-parameters' in desc:
+                    return False
+
+                if desc['type'] in ('SEQUENCE', 'SET'):
+                    members = desc['members']
+                    markers = [m for m in members if m is None]
+
+                    if any(isinstance(m, dict) and 'components-of' in m
+                           for m in members):
+                        return False
+
+                    if len(markers) == 1:
+                        return True
+
+                    return (not markers
+                            and module.get('extensibility-implied', False))
+
+                target = module['types'].get(desc['type'])
+
+                if target is None:
+                    return False
+
+                desc = target
+
+        return False
 
     @staticmethod
     def tag_octets(message):
